@@ -1278,6 +1278,98 @@ func (w *world) runTTL(boot conf, r *rng.R) freeRec {
 	return f
 }
 
+// ---------- the other writers of the served configuration that answer with an error or a refusal ----------
+// extra records one request-like step with the full served configuration around it and the served / reloaded projections
+func (w *world) extra(path, body string, plan map[string]kvx14.Kind, do func() (int, string)) {
+	before := w.fullServed()
+	w.kb.Arm(plan)
+	code, resp := do()
+	w.kb.Arm(nil)
+	res := "ROk"
+	if code != http.StatusOK {
+		res = w.errRes(errors.New(resp))
+		if res == "RBad" {
+			res = "RInvalid" // a refusal of these entry points: which kind does not matter here
+			delete(w.notes, "unclassified error: "+resp)
+		}
+	}
+	sn := w.snapshot(res)
+	w.steps = append(w.steps, jstep{Path: path, Body: body, Code: code, Res: res, Before: before, After: w.fullServed(), Served: sn.Served, Reload: sn.Reload})
+	if w.R != nil {
+		w.R.Count("extra:" + path + ":" + res)
+	}
+}
+
+func errCode(err error) (int, string) {
+	if err != nil {
+		return http.StatusInternalServerError, err.Error()
+	}
+	return http.StatusOK, ""
+}
+
+// runWriters: scheduler add / remove through server.Handler with a failing config write, rule requests for pd/default through the real
+// HTTP handler (refused and accepted), and two accepted updates that overlap (the first one parked at its config write)
+func (w *world) runWriters(boot conf, r *rng.R) freeRec {
+	boot.Repl.PR = true
+	w.reset(boot, false)
+	w.steps = nil
+	w.unknown = false
+	f := freeRec{Via: "other-writers", Boot: boot}
+	failCfg := map[string]kvx14.Kind{kvx14.PlanKey("config", 0): kvx14.FailBefore}
+	h := w.s.GetHandler()
+	name := pickS(r, "shuffle-leader", "shuffle-region", "label")
+	w.extra("handler:AddScheduler", name+" (config write fails)", failCfg, func() (int, string) { return errCode(h.AddScheduler(name)) })
+	w.extra("handler:AddScheduler", name, nil, func() (int, string) { return errCode(h.AddScheduler(name)) })
+	w.extra("handler:RemoveScheduler", name+"-scheduler (config write fails)", failCfg, func() (int, string) { return errCode(h.RemoveScheduler(name + "-scheduler")) })
+	w.extra("handler:RemoveScheduler", name+"-scheduler", nil, func() (int, string) { return errCode(h.RemoveScheduler(name + "-scheduler")) })
+	// a refused, then an accepted rule update for pd/default: the handler synchronises max-replicas with the rule's count
+	cnt := 4 + r.Intn(3)
+	bad := mustJSON(map[string]interface{}{"group_id": "pd", "id": "default", "role": "voterr", "count": cnt})
+	w.extra("/config/rule", string(bad), nil, func() (int, string) { return w.post("/config/rule", bad) })
+	badKeys := mustJSON(map[string]interface{}{"group_id": "pd", "id": "default", "role": "voter", "count": cnt + 1, "start_key": "zz"})
+	w.extra("/config/rule", string(badKeys), nil, func() (int, string) { return w.post("/config/rule", badKeys) })
+	good := mustJSON(map[string]interface{}{"group_id": "pd", "id": "default", "role": "voter", "count": cnt})
+	w.extra("/config/rule", string(good), nil, func() (int, string) { return w.post("/config/rule", good) })
+	// two accepted updates that overlap: the first is parked at its write of the config key while the second runs
+	w.kb.ArmPark(nil, kvx14.PlanKey("config", 0))
+	sc := w.s.GetScheduleConfig()
+	sc.MaxSnapshotCount = uint64(5 + r.Intn(4))
+	sc.SchedulersPayload = nil
+	doneA := make(chan int, 1)
+	go func() { c, _ := w.post("/config/schedule", mustJSON(sc)); doneA <- c }()
+	select {
+	case <-w.kb.Parked():
+	case <-time.After(5 * time.Second):
+		w.notes["overlap: the first update did not reach its config write"] = true
+	}
+	doneB := make(chan int, 1)
+	bodyB := mustJSON(map[string]interface{}{"pd-server.flow-round-by-digit": 6 + r.Intn(3)})
+	go func() { c, _ := w.post("/config", bodyB); doneB <- c }()
+	var codeB int
+	select {
+	case codeB = <-doneB:
+	case <-time.After(50 * time.Millisecond): // the second update waits (it cannot take its snapshot while the first one writes)
+	}
+	w.kb.Release()
+	codeA := <-doneA
+	if codeB == 0 {
+		codeB = <-doneB
+	}
+	w.kb.Arm(nil)
+	sn := w.snapshot("ROk")
+	if codeA == http.StatusOK && codeB == http.StatusOK {
+		w.steps = append(w.steps, jstep{Path: "overlapping-updates", Body: "POST /config/schedule (parked at its config write) || POST /config " + string(bodyB), Code: 200, Res: "ROk",
+			Served: sn.Served, Reload: sn.Reload})
+	} else {
+		w.notes[fmt.Sprintf("overlap: the two updates answered %d / %d", codeA, codeB)] = true
+	}
+	for range w.steps {
+		f.Ops = append(f.Ops, op{K: "other-writers"})
+	}
+	f.Steps = w.steps
+	return f
+}
+
 func (w *world) runFree(boot conf, r *rng.R, nops int, useEtcd bool) freeRec {
 	w.reset(boot, useEtcd)
 	w.steps = nil
@@ -1330,6 +1422,7 @@ func main() {
 	tier := flag.String("tier", "quick", "")
 	corpus := flag.String("corpus", "", "json file of fixed cases run first")
 	replay := flag.String("replay", "", "json file with cases (or an evidence replay file)")
+	nwriters := flag.Int("writers", 3, "number of cases with scheduler add/remove under a failing config write, rule requests for pd/default and two overlapping updates")
 	nttl := flag.Int("ttl", 2, "number of cases with a temporary (ttlSecond) override followed by ordinary updates and the expiry (about 2.5 s each)")
 	ncoord := flag.Int("coord", 2, "number of cases with an update before the real coordinator start (about 3.5 s each)")
 	nfree := flag.Int("free", 40, "number of model-free histories of HTTP requests (replication-mode requests included)")
@@ -1465,6 +1558,11 @@ func main() {
 			r := master.Fork(uint64(1000000 + k))
 			frees = append(frees, w.runFree(defaultBoot(r), r, 8+r.Intn(14), k%6 == 5))
 			R.Count("stream:api-free")
+		}
+		for k := 0; k < *nwriters; k++ {
+			r := master.Fork(uint64(4000000 + k))
+			frees = append(frees, w.runWriters(defaultBoot(r), r))
+			R.Count("stream:other-writers")
 		}
 		for k := 0; k < *nttl; k++ {
 			r := master.Fork(uint64(3000000 + k))
